@@ -364,6 +364,27 @@ def check_history(H, mark, execute_all, ending):
             n = len([x for x in sim if x[2] == 'cycle-begin' and p < x[0] < nxt])
             if n > 1:
                 return ('runs-while-paused', '%d cycles began after pause() returned (seq %d) and before the next unpause()/stop() call (seq %d)' % (n, p, nxt))
+    # ---- a runner that is parked on its 'unpaused' event only starts a cycle again because of an unpause() (or start());
+    # being woken by stop() must not run another cycle
+    wake = []
+    stack2 = {}
+    for e in sim:
+        if e[2] in ('unpause-inv', 'start-inv'):
+            stack2[(e[1], e[2][:-4])] = e[0]
+        elif e[2] in ('unpause-ret', 'start-ret'):
+            wake.append((stack2.pop((e[1], e[2][:-4])), e[0]))
+    for k_, s0 in stack2.items():
+        wake.append((s0, 10 ** 9))
+    for e in sim:
+        if e[2] == 'parked' and e[1] == 'runner':
+            p = e[0]
+            if any(i < p < r_ for i, r_ in wake):
+                continue
+            nxt = min([i for i, r_ in wake if i > p] + [mark + 1])
+            late = [x for x in sim if x[2] == 'cycle-begin' and p < x[0] < nxt]
+            if late:
+                return ('cycle-while-paused', 'the runner was parked on its unpaused event (seq %d); a cycle began (seq %d) although no unpause() was '
+                        'called in between (next unpause/start call: seq %s)' % (p, late[0][0], nxt if nxt <= mark else 'none'))
     # ---- stop / wait
     sr = [e[0] for e in sim if e[2] in ('stop-ret', 'wait-ret')]
     if not sr:
